@@ -20,7 +20,8 @@ RULE = ("(1) uniform-regime files in each of 48 dialect points (four key/value s
         "(4) supplied dialects (trailing/repeated/order variations) used verbatim for reporting and printing; "
         "non-trivial = >= 3 lines (1,4) / both values present in the window (3); distinct by file text + checklines")
 REQUIRED = ["uniform files: dialect compared", "infer_dialect strings compared", "routing observed: gtf", "routing observed: gff",
-            "mixtures decided by vote", "mixtures with exact tie", "supplied dialects compared", "re-ordered feature lists compared"]
+            "mixtures decided by vote", "mixtures with exact tie", "supplied dialects compared", "re-ordered feature lists compared",
+            "supplied format decides the import semantics (iterator data)"]
 ASSUMPTIONS = [
     "per-line exhibited dialect as defined by gvmon/models/dialect.observed (a feature a line cannot exhibit votes for the default)",
     "the inspected window is either the first `checklines` or the first `checklines`+1 feature lines; a mixture on which "
@@ -62,6 +63,8 @@ def execute(ctx, case):
             one_string(ctx, case)
         elif kind == "featlist":
             featlist(ctx, case)
+        elif kind == "routing_supplied":
+            routing_supplied(ctx, case)
     finally:
         for v in contracts.drain():
             ctx.violation(case, v)
@@ -234,6 +237,47 @@ def featlist(ctx, case):
         os.unlink(src)
 
 
+def routing_supplied(ctx, case):
+    """An explicitly supplied dialect decides the import semantics by its format, whatever form the data has -
+    also when the data is an already built DataIterator that inferred another format."""
+    import gffutils
+    from gffutils.iterators import DataIterator
+
+    written, supplied_fmt, form = case["written"], case["supplied_fmt"], case["form"]
+    D = {"fmt": written, "sep": "; ", "trailing": True, "repeated": False}
+    base = {"seqid": "chr1", "source": "s", "score": ".", "strand": "+", "frame": "."}
+    recs = []
+    for i, (s, e) in enumerate(((100, 200), (300, 400), (500, 650))):
+        recs.append(dict(base, featuretype="exon", start=str(s), end=str(e), extra=[],
+                         attrs=[["gene_id", ["G1"]], ["transcript_id", ["T1"]], ["exon_number", [str(i + 1)]]]))
+    text = "\n".join(M.render_line(r, D) for r in recs) + "\n"
+    dialect = M.gffutils_dialect(D, ["gene_id", "transcript_id", "exon_number"])
+    dialect["fmt"] = supplied_fmt
+    src = write(ctx, text)
+    try:
+        if form == "iterator":
+            data, kw = DataIterator(src), {}
+        elif form == "string":
+            data, kw = text, {"from_string": True}
+        else:
+            data, kw = src, {}
+        try:
+            db = gffutils.create_db(data, ":memory:", dialect=dict(dialect), **kw)
+        except Exception as ex:
+            ctx.violation(case, {"why": "create_db with a supplied dialect raised %r" % (ex,), "text": text, "form": form})
+            return
+        d = dbdump.dump_db(db)
+        db.conn.close()
+        derived = sorted(f["id"] for f in d["features"] if f["source"] == "gffutils_derived")
+        ctx.mon("supplied format decides the import semantics (%s data)" % form)
+        want = ["G1", "T1"] if supplied_fmt == "gtf" else []
+        if derived != want:
+            ctx.violation(case, {"why": "the supplied dialect's format did not decide the import semantics", "written_as": written,
+                                 "supplied_fmt": supplied_fmt, "data_form": form, "derived_features": derived, "expected": want})
+    finally:
+        os.unlink(src)
+
+
 def mixture(ctx, case):
     import gffutils
     from gffutils.iterators import DataIterator
@@ -394,6 +438,15 @@ def run(ctx):
                 case = {"kind": "routing", "D": D, "checklines": ck}
                 execute(ctx, case)
                 ctx.case(("routing", D, ck), True, sample=case, cls="routing")
+    j = 0
+    for written in ("gtf", "gff2"):
+        for supplied_fmt in ("gtf", "gff3"):
+            for form in ("path", "string", "iterator"):
+                j += 1
+                if ctx.mine(j):
+                    case = {"kind": "routing_supplied", "written": written, "supplied_fmt": supplied_fmt, "form": form}
+                    execute(ctx, case)
+                    ctx.case(("routing_supplied", written, supplied_fmt, form), True, sample=case, cls="supplied format routing")
     # (1) uniform files
     for _ in range(ctx.budget(700, 80000)):
         D = rng.choice(pts)
